@@ -206,8 +206,9 @@ class CFG:
         return out
 
     # --------------------------------------------------------------- emitter
-    def to_parglare(self, extra_rules="", extra_terminals="", prod_meta=None):
-        """prod_meta: optional {production index: "left, 5"}"""
+    def to_parglare(self, extra_rules="", extra_terminals="", prod_meta=None, term_meta=None):
+        """prod_meta: optional {production index: "left, 5"}; term_meta:
+        optional {terminal name: "5"}"""
         lines = []
         for n in self.nts:
             alts = []
@@ -221,7 +222,8 @@ class CFG:
             lines.append(extra_rules)
         tl = []
         for name, kind, value in self.terms:
-            tl.append("%s: %s;" % (name, term_literal(kind, value)))
+            m = " {%s}" % term_meta[name] if term_meta and term_meta.get(name) else ""
+            tl.append("%s: %s%s;" % (name, term_literal(kind, value), m))
         if extra_terminals:
             tl.append(extra_terminals)
         if tl:
